@@ -187,4 +187,133 @@ func elemField(v ssa.Value, elems []ssa.Value) (int, bool) {
 	return 0, false
 }
 
-var _ = types.Identical
+// localTable: the rows of a slice/array literal built in fn (`required := []struct{…}{ {…}, … }`).
+func localTable(backing *ssa.Alloc) (rows []tableRow, ok bool) {
+	byIdx := map[int64]tableRow{}
+	max := int64(-1)
+	bad := false
+	for _, ref := range *backing.Referrers() {
+		ia, isIA := ref.(*ssa.IndexAddr)
+		if !isIA {
+			continue
+		}
+		k, isK := constInt(ia.Index)
+		if !isK {
+			continue // a read by loop index
+		}
+		for _, r2 := range *ia.Referrers() {
+			switch x := r2.(type) {
+			case *ssa.FieldAddr:
+				for _, r3 := range *x.Referrers() {
+					if st, isSt := r3.(*ssa.Store); isSt && st.Addr == ssa.Value(x) {
+						if byIdx[k] == nil {
+							byIdx[k] = tableRow{}
+						}
+						if _, dup := byIdx[k][x.Field]; dup {
+							bad = true
+						}
+						byIdx[k][x.Field] = st.Val
+						if k > max {
+							max = k
+						}
+					}
+				}
+			case *ssa.Store:
+				if x.Addr == ssa.Value(ia) {
+					if byIdx[k] == nil {
+						byIdx[k] = tableRow{}
+					}
+					byIdx[k][0] = x.Val
+					if k > max {
+						max = k
+					}
+				}
+			}
+		}
+	}
+	if bad || max < 0 {
+		return nil, false
+	}
+	for k := int64(0); k <= max; k++ {
+		r := byIdx[k]
+		if r == nil {
+			r = tableRow{}
+		}
+		rows = append(rows, r)
+	}
+	return rows, true
+}
+
+// rangedTable: fn reads, by a loop index, the elements of one table – a
+// package-level literal of its package or a literal it builds itself; the rows
+// and the element reads.
+func rangedTable(w *World, fn *ssa.Function) (rows []tableRow, elems []ssa.Value, ok bool) {
+	if g, el := rangedGlobal(fn); g != nil {
+		if rows, ok := globalTable(w, g); ok {
+			return rows, el, true
+		}
+	}
+	var backing *ssa.Alloc
+	multi := false
+	allInstrs(fn, func(in ssa.Instruction) {
+		var coll, idx ssa.Value
+		switch x := in.(type) {
+		case *ssa.IndexAddr:
+			coll, idx = x.X, x.Index
+		case *ssa.Index:
+			coll, idx = x.X, x.Index
+		default:
+			return
+		}
+		if !isInduction(idx) {
+			return
+		}
+		if sl, isSl := coll.(*ssa.Slice); isSl {
+			coll = sl.X
+		}
+		al, isAl := coll.(*ssa.Alloc)
+		if !isAl {
+			return
+		}
+		if _, isArr := al.Type().Underlying().(*types.Pointer).Elem().Underlying().(*types.Array); !isArr {
+			return
+		}
+		if backing != nil && backing != al {
+			multi = true
+		}
+		backing = al
+		elems = append(elems, in.(ssa.Value))
+	})
+	if backing == nil || multi {
+		return nil, nil, false
+	}
+	rows, ok = localTable(backing)
+	return rows, elems, ok
+}
+
+// rowCondLeaves: the values the condition of a table row can take: the leaves of
+// a boolean stored in the row, or of what the predicate function stored in the
+// row returns.
+func rowCondLeaves(v ssa.Value) []ssa.Value {
+	var out []ssa.Value
+	v = stripConv(v)
+	var fn *ssa.Function
+	switch x := v.(type) {
+	case *ssa.Function:
+		fn = x
+	case *ssa.MakeClosure:
+		fn, _ = x.Fn.(*ssa.Function)
+	}
+	if fn != nil {
+		for _, r := range returnsOf(fn) {
+			for _, lf := range phiLeaves(returnValues(r)[0]) {
+				out = append(out, lf.Val)
+			}
+		}
+		return out
+	}
+	for _, lf := range phiLeaves(v) {
+		out = append(out, lf.Val)
+	}
+	return out
+}
